@@ -254,7 +254,7 @@ def check(pid, cfg, args):
                     if not r.discharged and not r.refuted:
                         retry_items['cfun:%s::%s#%d' % (p.name, o.label, n)] = solve.Lazy(axioms, o.hyps, o.goal)
                 if ex is not None:
-                    sm = solve.discharge([('smoke', solve.Lazy(axioms, ex.pre, z3lib.BoolVal(False)))], z3_timeout=1500, use_cvc5=False)[0]
+                    sm = solve.discharge([('smoke', solve.Lazy(axioms, ex.pre, z3lib.BoolVal(False)))], z3_timeout=1500, use_cvc5=False, single_pass=True)[0]
                     if sm.z3 == 'unsat':
                         errors.append('vacuous precondition for C function %s' % p.name)
                 if not obls:
